@@ -275,3 +275,33 @@ func HarnessC15() {
 	verifAssert(leaked == 0, "C15: goroutines started by the check are still alive after it returned and its context was cancelled")
 	closeDeps(deps)
 }
+
+// HarnessC14Isolation: two checks issued concurrently against one engine and
+// one store each return what they return when run alone (delay-bounded
+// schedules), and no two conflicting memory accesses of different goroutines
+// are unordered by happens-before (race analysis of the executor).
+func HarnessC14Isolation() {
+	w, qo, qr, qs := symWorld()
+	nRel := len(w.shape.rels)
+	qr2 := verifChoice(nRel)
+	qo2 := verifChoice(w.nObj)
+	deps := newDeps(w)
+	e := newEngine(deps)
+	ctx := context.Background()
+	t1, t2 := w.tuple(qo, qr, qs), w.tuple(qo2, qr2, subject{sid: 1})
+	alone1 := e.CheckRelationTuple(ctx, t1, 0)
+	alone2 := e.CheckRelationTuple(ctx, t2, 0)
+	if verifLimitHit {
+		return
+	}
+	var r1, r2 checkgroup.Result
+	done := make(chan struct{}, 2)
+	go func() { r1 = e.CheckRelationTuple(ctx, t1, 0); done <- struct{}{} }()
+	go func() { r2 = e.CheckRelationTuple(ctx, t2, 0); done <- struct{}{} }()
+	<-done
+	<-done
+	verifReach("c14.concurrent")
+	verifAssert(sameDecision(r1, alone1), "C14: a check returns a different answer when another check runs concurrently")
+	verifAssert(sameDecision(r2, alone2), "C14: a check returns a different answer when another check runs concurrently")
+	closeDeps(deps)
+}
